@@ -236,6 +236,41 @@ func init() {
 					return ok && ci.Common().StaticCallee() == setC && IsLoadOf(ssth)(ci.Common().Args[1])
 				}, nil)
 				c.Check(ok2, "fr-cwnd", c.Pos(a.Instr), "fast recovery ⇒ setCWND(ssthresh)", "fast-recovery entry does not cut cwnd to ssthresh")
+				// the property says the window is CUT on a loss signal: ssthresh = max(cwnd/2, 4·MTU) exceeds cwnd whenever
+				// cwnd < 4·MTU (e.g. the initial window), so "cwnd = ssthresh" must not be allowed to raise it
+				notRaised := false
+				forEachInstr(pfr, func(x ssa.Instruction) {
+					ci, ok := x.(ssa.CallInstruction)
+					if !ok || ci.Common().StaticCallee() != setC || !CanReach(a.Instr, x) {
+						return
+					}
+					arg := unconv(ci.Common().Args[1])
+					isCwnd := func(v ssa.Value) bool {
+						call, isCall := unconv(v).(*ssa.Call)
+						return isCall && call.Call.StaticCallee() != nil && call.Call.StaticCallee().Name() == "CWND"
+					}
+					if call, isCall := arg.(*ssa.Call); isCall {
+						name := ""
+						if sc := call.Call.StaticCallee(); sc != nil {
+							name = sc.Name()
+						} else if b, isB := call.Call.Value.(*ssa.Builtin); isB {
+							name = b.Name()
+						}
+						if name == "min32" || name == "min" {
+							for _, aa := range call.Call.Args {
+								if isCwnd(aa) {
+									notRaised = true
+								}
+							}
+						}
+					}
+					for _, ft := range DomFactsX(x.Block()) {
+						if b, isB := ft.Cond.(*ssa.BinOp); isB && (isCwnd(b.X) || isCwnd(b.Y)) && (IsLoadOf(ssth)(b.X) || IsLoadOf(ssth)(b.Y)) {
+							notRaised = true
+						}
+					}
+				})
+				c.Check(notRaised, "fr-cwnd-not-raised", c.Pos(a.Instr), "the new cwnd is min(cwnd, ssthresh)", "entering fast recovery sets cwnd = ssthresh = max(cwnd/2, 4*MTU) unconditionally: for cwnd < 4*MTU the loss signal RAISES the congestion window (4380 -> 4764 from the initial window)")
 				ok3, _ := MustPass(a.Instr, func(x ssa.Instruction) bool {
 					st, ok := x.(*ssa.Store)
 					return ok && fieldOfAddr(st.Addr) == pba && IsConstInt(0)(st.Val)
@@ -243,6 +278,38 @@ func init() {
 				c.Check(ok3, "fr-pba", c.Pos(a.Instr), "fast recovery ⇒ partialBytesAcked = 0", "fast-recovery entry does not clear partial_bytes_acked")
 			}
 			c.Check(n >= 1, "fr-entry-site", c.P.Pos(pfr.Pos()), "one fast-recovery entry site", fmt.Sprintf("%d entry sites", n))
+			// a loss declared by RACK is a loss signal too: where it marks a chunk for retransmission the window is cut
+			// (directly, or by entering the same recovery as the gap-report path)
+			{
+				rtF := c.field("chunkPayloadData", "retransmit")
+				for _, name := range []string{"Association.onRackAfterSACK", "Association.onRackTimeoutLocked"} {
+					fn := c.P.Fn(name)
+					if fn == nil {
+						continue
+					}
+					marks := false
+					for _, g := range c.P.Region(fn) {
+						for _, a := range c.storesIn(g, rtF) {
+							if IsConstBool(true)(a.Val) {
+								marks = true
+							}
+						}
+					}
+					if !marks {
+						continue
+					}
+					cuts := false
+					for g := range c.P.TransitiveCallees(fn) {
+						if g == setC {
+							cuts = true
+						}
+						for range c.storesIn(g, ssth) {
+							cuts = true
+						}
+					}
+					c.Check(cuts, "rack-loss-cuts-window@"+name, c.P.Pos(fn.Pos()), "a RACK-declared loss reduces cwnd/ssthresh", "a loss declared by RACK marks chunks for retransmission but neither cwnd nor ssthresh is reduced anywhere on that path")
+				}
+			}
 			// miss indications only for unacked, unabandoned chunks, capped at 3
 			acked := c.field("chunkPayloadData", "acked")
 			for _, a := range c.storesIn(pfr, mi) {
